@@ -3,6 +3,11 @@
 G1  intrinsics : ford.intrinsics.INTRINSICS (imported from REPO)
 G4  cascade    : the ordered (branch name, guard) list of the if/elif chain in
                  FortranContainer.__init__ (ast walk of ford/sourceform.py)
+G10 guards     : for the branches whose test is one boolean `self.X.match(line)` /
+                 `self.X.search(line)` and which the property says must never be scanned
+                 (INTERPRETED below): the method used at the call site and the parse tree of
+                 the compiled pattern object (`re._parser`), as a term of `Ford.Rx.Re`
+                 (lean/FordModel/CallsRegex.lean) that the model interprets
 
 A construct that cannot be found raises (= "tie broken", never a pass).
 """
@@ -131,8 +136,167 @@ def get_cascade() -> list[tuple[str, str]]:
     return out
 
 
-def render(intr: list[str], casc: list[tuple[str, str]]) -> str:
+# --------------------------------------------------------------------------
+# G10: guards of the cascade that the model interprets
+# --------------------------------------------------------------------------
+
+#: branches of the cascade whose regex is generated and interpreted (boolean use only)
+INTERPRETED = ("FORMAT_RE", "ARITH_GOTO_RE")
+
+
+def _branch_tests() -> dict[str, ast.AST]:
+    """branch name -> test expression of that branch of the cascade"""
+    path = common.REPO / "ford" / "sourceform.py"
+    tree = ast.parse(path.read_text())
+    cls = next(n for n in tree.body if isinstance(n, ast.ClassDef) and n.name == "FortranContainer")
+    init = next(n for n in cls.body if isinstance(n, ast.FunctionDef) and n.name == "__init__")
+    out = {}
+    for n in ast.walk(init):
+        if isinstance(n, ast.If):
+            nm = _branch_name(n.test)
+            out.setdefault(nm, n.test)
+    return out
+
+
+def _call_site(test: ast.AST, name: str) -> str:
+    """'match' or 'search': the branch test must be exactly `self.<name>.<method>(line)`"""
+    t = test
+    if isinstance(t, ast.NamedExpr):
+        t = t.value
+    ok = (isinstance(t, ast.Call) and isinstance(t.func, ast.Attribute) and t.func.attr in ("match", "search")
+          and isinstance(t.func.value, ast.Attribute) and t.func.value.attr == name
+          and isinstance(t.func.value.value, ast.Name) and t.func.value.value.id == "self"
+          and len(t.args) == 1 and not t.keywords and isinstance(t.args[0], ast.Name) and t.args[0].id == "line")
+    if not ok:
+        raise ValueError(f"the test of branch {name} is no longer `self.{name}.match/search(line)`: {ast.unparse(test)}")
+    return t.func.attr
+
+
+def lean_char(code: int) -> str:
+    if code > 0x10FFFF:
+        raise ValueError("bad code point")
+    c = chr(code)
+    if c == "'":
+        return "'\\''"
+    if c == "\\":
+        return "'\\\\'"
+    if 32 <= code < 127:
+        return f"'{c}'"
+    return f"(Char.ofNat {code})"
+
+
+def _re_term(items, P) -> str:
+    """a sequence of parse-tree items -> Lean term of `Ford.Rx.Re` (right-nested `seq`)"""
+    terms = [_re_item(op, av, P) for op, av in items]
+    terms = [t for t in terms if t is not None]
+    if not terms:
+        return ".eps"
+    out = terms[-1]
+    for t in reversed(terms[:-1]):
+        out = f"(.seq {t} {out})"
+    return out
+
+
+def _class_items(av, P) -> tuple[bool, list[str]]:
+    neg = False
+    items = []
+    cats = {P.CATEGORY_SPACE: ".space", P.CATEGORY_DIGIT: ".digit", P.CATEGORY_WORD: ".word",
+            P.CATEGORY_NOT_SPACE: ".nspace", P.CATEGORY_NOT_DIGIT: ".ndigit", P.CATEGORY_NOT_WORD: ".nword"}
+    for op, a in av:
+        if op is P.NEGATE:
+            neg = True
+        elif op is P.LITERAL:
+            items.append(f".chr {lean_char(a)}")
+        elif op is P.RANGE:
+            items.append(f".range {lean_char(a[0])} {lean_char(a[1])}")
+        elif op is P.CATEGORY and a in cats:
+            items.append(cats[a])
+        else:
+            raise ValueError(f"unsupported class member {op} {a}")
+    return neg, items
+
+
+def _re_item(op, av, P) -> str | None:
+    if op is P.LITERAL:
+        return f"(.set false [.chr {lean_char(av)}])"
+    if op is P.NOT_LITERAL:
+        return f"(.set true [.chr {lean_char(av)}])"
+    if op is P.ANY:
+        return "(.set false [.notnl])"
+    if op is P.IN:
+        neg, items = _class_items(av, P)
+        return f"(.set {'true' if neg else 'false'} [{', '.join(items)}])"
+    if op is P.AT:
+        if av is P.AT_BEGINNING:
+            return ".bol"
+        if av is P.AT_END:
+            return ".eol"
+        raise ValueError(f"unsupported anchor {av}")
+    if op in (P.MAX_REPEAT, P.MIN_REPEAT, getattr(P, "POSSESSIVE_REPEAT", None)):
+        if op is getattr(P, "POSSESSIVE_REPEAT", None):
+            raise ValueError("possessive repeat is not supported")
+        lo, hi, sub = av
+        x = _re_term(sub, P)
+        if hi is P.MAXREPEAT:
+            if lo > 8:
+                raise ValueError("repeat count too large")
+            out = f"(.star {x})"
+            for _ in range(lo):
+                out = f"(.seq {x} {out})"
+            return out
+        if hi > 8:
+            raise ValueError("repeat count too large")
+        out = ".eps"
+        for _ in range(hi - lo):
+            out = f"(.alt (.seq {x} {out}) .eps)" if out != ".eps" else f"(.alt {x} .eps)"
+        for _ in range(lo):
+            out = f"(.seq {x} {out})" if out != ".eps" else x
+        return out
+    if op is P.SUBPATTERN:
+        _group, add_flags, del_flags, sub = av
+        if add_flags or del_flags:
+            raise ValueError("inline flags are not supported")
+        return _re_term(sub, P)
+    if op is P.BRANCH:
+        alts = [_re_term(a, P) for a in av[1]]
+        out = alts[-1]
+        for a in reversed(alts[:-1]):
+            out = f"(.alt {a} {out})"
+        return out
+    raise ValueError(f"unsupported regex construct {op}")
+
+
+def get_guards() -> list[tuple[str, str, bool, str, str]]:
+    """[(branch, method, ignorecase, Lean term, pattern source)] for INTERPRETED"""
+    import re
+    try:
+        import re._parser as P
+    except ImportError:  # Python < 3.11
+        import sre_parse as P
+    common.import_ford()
+    sf = importlib.import_module("ford.sourceform")
+    FC = getattr(sf, "FortranContainer")
+    tests = _branch_tests()
+    out = []
+    for name in INTERPRETED:
+        if name not in tests:
+            raise ValueError(f"no branch of the cascade is guarded by {name} alone")
+        method = _call_site(tests[name], name)
+        rx = getattr(FC, name, None)
+        if not isinstance(rx, re.Pattern) or not isinstance(rx.pattern, str):
+            raise ValueError(f"FortranContainer.{name} is not a compiled str pattern")
+        allowed = re.IGNORECASE | re.UNICODE | re.VERBOSE
+        if rx.flags & ~allowed:
+            raise ValueError(f"{name}: unsupported flags {rx.flags}")
+        tree = P.parse(rx.pattern, rx.flags)
+        term = _re_term(list(tree), P)
+        out.append((name, method, bool(rx.flags & re.IGNORECASE), term, rx.pattern))
+    return out
+
+
+def render(intr: list[str], casc: list[tuple[str, str]], guards) -> str:
     lines = ["/- GENERATED by translate/c08.py from ford/intrinsics.py and ford/sourceform.py - do not edit -/",
+             "import FordModel.CallsRegex",
              "namespace Ford.Generated.C08", "",
              "/-- `ford.intrinsics.INTRINSICS` -/",
              "def intrinsics : List String := ["]
@@ -144,6 +308,17 @@ def render(intr: list[str], casc: list[tuple[str, str]]) -> str:
               "def cascade : List (String × String) := ["]
     for k, (n, g) in enumerate(casc):
         lines.append(f"  ({lean_str(n)}, {lean_str(g)})" + ("," if k + 1 < len(casc) else ""))
+    lines += ["]", ""]
+    for name, method, ci, term, src in guards:
+        if "-/" in src:
+            raise ValueError("pattern source cannot be quoted in a Lean comment")
+        lines += [f"/-- parse tree of `FortranContainer.{name}` = `{src.strip()}`" + (" (IGNORECASE)" if ci else "") + " -/",
+                  f"def rx{name} : Ford.Rx.Pattern := {{ ci := {'true' if ci else 'false'}, body :=",
+                  f"  {term} }}", ""]
+    lines += ["/-- the interpreted guards: (branch, used with `.search` (else `.match`), pattern) -/",
+              "def guards : Ford.Rx.Guards := ["]
+    for k, (name, method, ci, term, src) in enumerate(guards):
+        lines.append(f"  ({lean_str(name)}, {'true' if method == 'search' else 'false'}, rx{name})" + ("," if k + 1 < len(guards) else ""))
     lines += ["]", "", "end Ford.Generated.C08", ""]
     return "\n".join(lines)
 
@@ -151,8 +326,10 @@ def render(intr: list[str], casc: list[tuple[str, str]]) -> str:
 def translate() -> dict:
     intr = get_intrinsics()
     casc = get_cascade()
-    common.write_if_changed(OUT, render(intr, casc))
-    return {"intrinsics": len(intr), "cascade": casc}
+    guards = get_guards()
+    common.write_if_changed(OUT, render(intr, casc, guards))
+    return {"intrinsics": len(intr), "cascade": casc,
+            "guards": [{"branch": g[0], "method": g[1], "ignorecase": g[2], "pattern": g[4]} for g in guards]}
 
 
 if __name__ == "__main__":
@@ -160,3 +337,5 @@ if __name__ == "__main__":
     print(info["intrinsics"], "intrinsics;", len(info["cascade"]), "branches")
     for b in info["cascade"]:
         print("  ", b)
+    for g in info["guards"]:
+        print("  ", g)
